@@ -26,6 +26,7 @@ import (
 	"sort"
 	"strconv"
 	"strings"
+	"sync"
 	"time"
 
 	"github.com/postalsys/muti-metroo/internal/identity"
@@ -362,6 +363,11 @@ func restartArgs(sc scenario, dir string) []string {
 // ---------------------------------------------------------------------------
 // one crash experiment
 
+// recorder buffers what a scenario wants to report so that scenarios can run concurrently
+type recorder struct{ ops []func() }
+
+func (r *recorder) do(f func()) { r.ops = append(r.ops, f) }
+
 type crashCase struct {
 	Scenario    scenario   `json:"scenario"`
 	Script      []sysop    `json:"script"`       // calibration
@@ -397,7 +403,6 @@ func main() {
 		panic(err)
 	}
 	defer os.RemoveAll(work)
-	dataDir := filepath.Join(work, "data")
 
 	scs := scenarios(c.Rand.Fork(), c.Thorough())
 	if c.Replay != "" {
@@ -407,16 +412,41 @@ func main() {
 		if err := c.ReadReplay(&rp); err != nil {
 			panic(err)
 		}
+		if rp.Scenario.Routine == "" { // the replay is a bare scenario
+			if err := c.ReadReplay(&rp.Scenario); err != nil {
+				panic(err)
+			}
+		}
 		scs = []scenario{rp.Scenario}
 	}
 	col := newCollector()
-	for _, sc := range scs {
-		runScenario(c, col, sc, work, dataDir)
+	// scenarios are independent: run them on a few workers, then replay what
+	// they recorded (cases, counters, failures) in scenario order
+	recs := make([]*recorder, len(scs))
+	sem := make(chan struct{}, 4)
+	var wg sync.WaitGroup
+	for i, sc := range scs {
+		recs[i] = &recorder{}
+		wg.Add(1)
+		go func(i int, sc scenario) {
+			defer wg.Done()
+			sem <- struct{}{}
+			defer func() { <-sem }()
+			w := filepath.Join(work, fmt.Sprintf("s%d", i))
+			os.MkdirAll(w, 0o755)
+			runScenario(c, col, sc, w, filepath.Join(w, "data"), recs[i])
+		}(i, sc)
+	}
+	wg.Wait()
+	for _, r := range recs {
+		for _, f := range r.ops {
+			f()
+		}
 	}
 	col.write(c)
 }
 
-func runScenario(c *vh.Ctx, col *collector, sc scenario, work, dataDir string) {
+func runScenario(c *vh.Ctx, col *collector, sc scenario, work, dataDir string, r *recorder) {
 	// 1. calibration: complete run under strace
 	var script []sysop
 	var clean runResult
@@ -433,28 +463,34 @@ func runScenario(c *vh.Ctx, col *collector, sc scenario, work, dataDir string) {
 		script = nil
 	}
 	if clean.Out == nil {
-		c.Fail("helper-run-failed", "the helper did not complete the routine "+sc.Name, sc)
+		r.do(func() { c.Fail("helper-run-failed", "the helper did not complete the routine "+sc.Name, sc) })
 		return
 	}
 	if clean.Out.Panicked != "" {
-		c.Fail("routine-panicked", sc.Name+": "+clean.Out.Panicked, sc)
+		r.do(func() { c.Fail("routine-panicked", sc.Name+": "+clean.Out.Panicked, sc) })
 	}
-	c.Count("scenario/" + sc.Routine)
-	c.Count(fmt.Sprintf("script-length/%d", len(script)))
-	col.addRun(c, sc, script, clean.Out, final)
-	monitorCompleted(c, sc, clean.Out, final)
+	r.do(func() { c.Count("scenario/" + sc.Routine) })
+	r.do(func() { c.Count(fmt.Sprintf("script-length/%d", len(script))) })
+	r.do(func() { col.addRun(c, sc, script, clean.Out, final) })
+	r.do(func() { monitorCompleted(c, sc, clean.Out, final) })
 
 	// 2. one killed run per mutating system call
 	covered := map[int]bool{}
 	for i := range script {
-		for attempt := 0; attempt < 4 && !covered[i]; attempt++ {
+		for attempt := 0; attempt < 6 && !covered[i]; attempt++ {
 			sc.Init.materialise(dataDir)
 			target := script[i]
-			inj := fmt.Sprintf("inject=%s:signal=SIGKILL:when=%d", target.Name, target.Ordinal)
+			ord := target.Ordinal
+			if target.Name == "write" {
+				// the Go runtime occasionally issues a write of its own (timer wake-up
+				// through the netpoller's eventfd) on the same thread: probe neighbours
+				ord += []int{0, 1, 0, 2, 1, 3}[attempt]
+			}
+			inj := fmt.Sprintf("inject=%s:signal=SIGKILL:when=%d", target.Name, ord)
 			kr := runHelper(work, []string{"-e", "trace=" + traceSet, "-e", inj}, helperArgs(sc, dataDir)...)
 			ops, sawBegin, sawEnd := parseTrace(kr.Trace, dataDir)
 			if !kr.Killed || sawEnd || kr.Out != nil {
-				c.Count("inject/not-killed-retry")
+				r.do(func() { c.Count("inject/not-killed-retry") })
 				continue
 			}
 			k := 0
@@ -473,14 +509,14 @@ func runScenario(c *vh.Ctx, col *collector, sc scenario, work, dataDir string) {
 				}
 			}
 			if !okPrefix {
-				c.Count("inject/unexpected-prefix-retry")
+				r.do(func() { c.Count("inject/unexpected-prefix-retry") })
 				continue
 			}
 			if covered[k] {
 				if os.Getenv("C34_DEBUG") != "" {
 					fmt.Fprintf(os.Stderr, "dup: %s i=%d k=%d inj=%s ops=%v\n%s\n", sc.Name, i, k, inj, ops, kr.Trace)
 				}
-				c.Count("inject/duplicate-point")
+				r.do(func() { c.Count("inject/duplicate-point") })
 				if k != i {
 					continue
 				}
@@ -490,13 +526,13 @@ func runScenario(c *vh.Ctx, col *collector, sc scenario, work, dataDir string) {
 			rr := runHelper(work, nil, restartArgs(sc, dataDir)...)
 			afterR := snap(dataDir)
 			cc := crashCase{Scenario: sc, Script: script, Killed: ops, K: k, AfterCrash: after, Restart: rr.Out, AfterRstart: afterR}
-			col.addCrash(c, cc)
-			monitorCrash(c, cc, clean.Out)
-			c.Count("crash-point/" + sc.Routine)
+			r.do(func() { col.addCrash(c, cc) })
+			r.do(func() { monitorCrash(c, cc, clean.Out) })
+			r.do(func() { c.Count("crash-point/" + sc.Routine) })
 		}
 		if !covered[i] {
-			c.Note("scenario %s: crash point %d (%s) could not be hit", sc.Name, i, script[i].Op)
-			c.Count("inject/point-not-covered")
+			r.do(func() { c.Note("scenario %s: crash point %d (%s) could not be hit", sc.Name, i, script[i].Op) })
+			r.do(func() { c.Count("inject/point-not-covered") })
 		}
 	}
 }
